@@ -120,6 +120,8 @@ BAD_KINDS = {
     "bom": b"\xef\xbb\xbfx = 1\n",
     "latin1-cookie": b"# -*- coding: latin-1 -*-\nx = '\xe9'\n",
     "tabs-mix": b"if True:\n\tx = 1\n        y = 2\n",
+    # a file a rule-based detector still reports on although it cannot be decoded
+    "invalid-utf8-with-finding": b"import random\nvalue = random.random()\n# \xff\xfe\n",
 }
 CODEMODS = ["pixee:python/numpy-nan-equality", "pixee:python/fix-assert-tuple", "pixee:python/use-walrus-if", "pixee:python/fix-mutable-params",
             "pixee:python/remove-debug-breakpoint", "pixee:python/secure-tempfile"]
@@ -140,6 +142,13 @@ def cli_case(case):
         badname = f"f{case['pos']}x.py"       # sorts right after f{pos}.py
         e2e.write_project(good, files)
         e2e.write_project(bad, files)
+        real_bad, real_good = bad, good
+        if case.get("spelling") == "symlink":        # the directory operand reaches the project through a symbolic link ...
+            os.symlink(bad, root / "lnk-bad"); os.symlink(good, root / "lnk-good")
+            bad, good = root / "lnk-bad", root / "lnk-good"
+        elif case.get("spelling") == "dotdot":       # ... or is written with a `..` in it
+            (root / "x").mkdir()
+            bad, good = root / "x" / ".." / "bad", root / "x" / ".." / "good"
         (bad / badname).write_bytes(BAD_KINDS[case["kind"]] if case["kind"] != "vanish" else b"x = 1\n")
         before_bad = (bad / badname).read_bytes()
         args = ["--codemod-include", ",".join(cms)]
@@ -161,7 +170,7 @@ def cli_case(case):
         else:
             rb = e2e.run(bad, args)
         rg = e2e.run(good, args)
-        tb, tg = e2e.read_tree(bad), e2e.read_tree(good)
+        tb, tg = e2e.read_tree(real_bad), e2e.read_tree(real_good)
         def res(rep):
             return [{"codemod": x["codemod"], "changeset": [c for c in x["changeset"] if c["path"] != badname],
                      "failed": sorted(f.split("/")[-1] for f in x.get("failedFiles") or [])} for x in (rep or {}).get("results", [])]
@@ -188,6 +197,11 @@ def search(ctx):
         for _ in range(ctx.pick(2, 10)):
             n = rng.randint(2, 6)
             cases.append({"kind": k, "n": n, "pos": rng.randint(0, n - 1), "codemods": rng.sample(CODEMODS, rng.choice([1, 2])), "seed": rng.randint(0, 10**9)})
+    # a rule-detected codemod, a file it has findings in but cannot process, and the directory operand spelled in ways that are not
+    # the canonical absolute path
+    for sp in ("plain", "symlink", "dotdot"):
+        cases.append({"kind": "invalid-utf8-with-finding", "n": 3, "pos": 1, "codemods": ["pixee:python/secure-random"], "seed": rng.randint(0, 10**9), "spelling": sp})
+        cases.append({"kind": "syntax-error", "n": 3, "pos": 1, "codemods": ["pixee:python/fix-assert-tuple"], "seed": rng.randint(0, 10**9), "spelling": sp})
     for c, r in zip(cases, impl.pool_map(cli_case, cases)):
         if r[0] != "ok":
             ctx.broke("c10 cli harness", r[1]); continue
@@ -203,7 +217,7 @@ def search(ctx):
             ctx.fail({"kind": "fault-not-isolated", "fault": c["kind"]}, f"other files / their changesets differ from the run without the {c['kind']} file", rep)
         elif any(f for f in r["good_failed"]):
             pass
-        elif c["kind"] in ("invalid-utf8", "nul", "syntax-error", "latin1-cookie", "vanish") and not listed and not r["bad_changed_reported"]:
+        elif c["kind"] in ("invalid-utf8", "invalid-utf8-with-finding", "nul", "syntax-error", "latin1-cookie", "vanish") and not listed and not r["bad_changed_reported"]:
             ctx.fail({"kind": "failure-not-reported", "fault": c["kind"]}, f"the {c['kind']} file was selected but is not listed in failedFiles ({r['failed']})", rep)
         elif c["kind"] in ("invalid-utf8", "nul", "syntax-error", "latin1-cookie"):
             # every codemod that goes through all Python files (no rule of its own) meets the bad file and must list it itself
